@@ -34,16 +34,17 @@ const (
 	KFnMixed                // options and builder, Result and Any mixed
 	KEmbedBld               // composition: a struct embedding *flyt.NodeBuilder that overrides Prep, Exec and Post (the builder's own functions must never run)
 	KBaseOverride           // composition: a struct embedding *BaseNode (configured with OTHER settings) that overrides GetMaxRetries / GetWait
+	KEmbedFlow              // composition: a struct embedding *flyt.Flow (whose own node must never run) that overrides Prep, Exec and Post
 	KFlow                   // a flyt.Flow (NodeSpec.Flow describes it)
 	KBatch                  // a sequential two-item batch node (builder); item calls are recorded as phase "item"
 	NumScriptedKinds = KFlow
 )
 
-var KindNames = []string{"base", "baseFB", "plain", "plainFB", "plainRetry", "plainRetryFB", "fnOptRes", "fnOptAny", "fnBldRes", "fnBldAny", "fnMixed", "embedBuilder", "baseOverride", "flow", "batch"}
+var KindNames = []string{"base", "baseFB", "plain", "plainFB", "plainRetry", "plainRetryFB", "fnOptRes", "fnOptAny", "fnBldRes", "fnBldAny", "fnMixed", "embedBuilder", "baseOverride", "embedFlow", "flow", "batch"}
 
 func KindHasRetry(k int) bool { return k != KPlain && k != KPlainFB }
 func KindCanFB(k int) bool {
-	return k != KBase && k != KPlain && k != KPlainRetry && k != KBaseOverride
+	return k != KBase && k != KPlain && k != KPlainRetry && k != KBaseOverride && k != KEmbedFlow
 }
 
 // Error kinds used by scripted failures.
@@ -72,7 +73,20 @@ const (
 	ETypedNil = NumErrKinds + 6
 	// ENilSliceErr: a non-nil error interface holding a nil slice of a slice-based error type
 	ENilSliceErr = NumErrKinds + 7
+	// ENotTemporary: the error implements Temporary() bool { return false } (like *net.DNSError for an unknown host): still retried
+	ENotTemporary = NumErrKinds + 8
+	// EChained: every failing attempt's error wraps the previous attempt's error ("retry n: ...: <previous>")
+	EChained = NumErrKinds + 9
+	// ESameValue: every failing attempt of a visit returns the very same error value (a reused sentinel)
+	ESameValue = NumErrKinds + 10
 )
+
+// PermErr is a permanent-looking error.
+type PermErr struct{ ID string }
+
+func (e *PermErr) Error() string   { return "permanent failure " + e.ID }
+func (e *PermErr) Temporary() bool { return false }
+func (e *PermErr) Timeout() bool   { return false }
 
 // NilableErr is a pointer error type whose methods work on a nil receiver.
 type NilableErr struct{ msg string }
@@ -90,7 +104,7 @@ type MultiErr []error
 func (m MultiErr) Error() string { return fmt.Sprintf("%d errors", len(m)) }
 
 // AllErrKinds lists every error kind a callback can be scripted to fail with (ECtxAware excluded: it depends on the context).
-var AllErrKinds = []int{ESentinel, EWrapped, ECustom, ECtxLike, EUncomparable, EJoined, ENestedRun, ETemporary, ETypedNil, ENilSliceErr}
+var AllErrKinds = []int{ESentinel, EWrapped, ECustom, ECtxLike, EUncomparable, EJoined, ENestedRun, ETemporary, ETypedNil, ENilSliceErr, ENotTemporary, EChained, ESameValue}
 
 // UncompErr is an error whose dynamic type is not comparable.
 type UncompErr struct {
@@ -144,10 +158,16 @@ type NodeSpec struct {
 	HasFB   bool      `json:"has_fb,omitempty"` // fallback installed (only for kinds that can)
 	ErrKind int       `json:"err_kind,omitempty"`
 	WaitMs  int       `json:"wait_ms,omitempty"` // retry wait (kinds with retry settings)
+	WaitNs  int       `json:"wait_ns,omitempty"` // additional nanoseconds of retry wait (tiny, non-zero waits)
 	LoopN   int       `json:"loop_n,omitempty"`  // > 0: the node returns action "loop" on its first LoopN visits and "exit" afterwards (Visits is ignored): long cycles
 	Conc    int       `json:"conc,omitempty"`    // > 0: a batch concurrency (and stop-on-error) is configured on this NON-batch node: must change nothing
 	Visits  []Visit   `json:"visits,omitempty"`  // script per visit; beyond the script the node succeeds at once and returns EndAction
 	Flow    *FlowSpec `json:"flow,omitempty"`
+}
+
+// Wait is the configured retry wait.
+func (s *NodeSpec) Wait() time.Duration {
+	return time.Duration(s.WaitMs)*time.Millisecond + time.Duration(s.WaitNs)
 }
 
 // EndAction is returned by post once a node's script is exhausted; generators never connect it.
@@ -410,6 +430,9 @@ func (x *Exec) mkErr(kind int, id string) error {
 	case EUncomparable:
 		sentinel = UncompErr{ID: id, Tags: []string{"a"}}
 		ret = sentinel
+	case ENotTemporary:
+		sentinel = &PermErr{ID: id}
+		ret = fmt.Errorf("lookup failed: %w", sentinel)
 	case ETypedNil:
 		sentinel = (*NilableErr)(nil)
 		ret = sentinel
@@ -446,6 +469,15 @@ func (x *Exec) mkErr(kind int, id string) error {
 	x.errs[id] = sentinel
 	x.mu.Unlock()
 	return ret
+}
+
+// aliasErr registers id as another name of the sentinel registered under of.
+func (x *Exec) aliasErr(id, of string) {
+	x.mu.Lock()
+	if s, ok := x.errs[of]; ok {
+		x.errs[id] = s
+	}
+	x.mu.Unlock()
 }
 
 // MatchErr returns the id of the scripted error that err matches ("" if none).
@@ -573,7 +605,16 @@ func (c *core) exec(ctx context.Context, prepRes any) (any, error) {
 		return c.produced, nil
 	}
 	c.x.setRet(seq, errID(c.id, v, "exec", c.attempt))
-	err := c.x.mkErr(c.spec.ErrKind, errID(c.id, v, "exec", c.attempt))
+	var err error
+	switch {
+	case c.spec.ErrKind == ESameValue && len(c.attErrs) > 0:
+		err = c.attErrs[0] // the very same value again
+		c.x.aliasErr(errID(c.id, v, "exec", c.attempt), errID(c.id, v, "exec", 1))
+	case c.spec.ErrKind == EChained && len(c.attErrs) > 0:
+		err = fmt.Errorf("retry %d: %w; previous attempt: %w", c.attempt, c.x.mkErr(ESentinel, errID(c.id, v, "exec", c.attempt)), c.attErrs[len(c.attErrs)-1])
+	default:
+		err = c.x.mkErr(c.spec.ErrKind, errID(c.id, v, "exec", c.attempt))
+	}
 	c.attErrs = append(c.attErrs, err)
 	// a failing attempt may well return a (meaningless) value next to its error: it must never reach post
 	return &payload{Node: c.id, Visit: v, Attempt: c.attempt, What: "garbage-of-failed-attempt"}, err
@@ -724,7 +765,7 @@ type plainRetryNode struct {
 func (n *plainRetryNode) GetMaxRetries() int { n.c.x.enterGetter(); return n.n }
 func (n *plainRetryNode) GetWait() time.Duration {
 	n.c.x.enterGetter()
-	return time.Duration(n.c.spec.WaitMs) * time.Millisecond
+	return n.c.spec.Wait()
 }
 
 type plainRetryFBNode struct{ plainRetryNode }
@@ -745,6 +786,21 @@ func (n *embedBldNode) Post(ctx context.Context, s *flyt.SharedStore, p, e any) 
 	return n.c.post(ctx, s, p, e)
 }
 
+// embedFlowNode is a node type built around an embedded *flyt.Flow (a gate / adapter around a sub-flow) that brings
+// its own three phases: the embedded flow is not run unless the node's Exec decides to.
+type embedFlowNode struct {
+	*flyt.Flow
+	c *core
+}
+
+func (n *embedFlowNode) Prep(ctx context.Context, s *flyt.SharedStore) (any, error) {
+	return n.c.prep(ctx, s)
+}
+func (n *embedFlowNode) Exec(ctx context.Context, p any) (any, error) { return n.c.exec(ctx, p) }
+func (n *embedFlowNode) Post(ctx context.Context, s *flyt.SharedStore, p, e any) (flyt.Action, error) {
+	return n.c.post(ctx, s, p, e)
+}
+
 // baseOverrideNode embeds a BaseNode carrying other settings and overrides the getters: the getters are the node's settings.
 type baseOverrideNode struct {
 	baseNode
@@ -756,7 +812,7 @@ func (n *baseOverrideNode) GetMaxRetries() int {
 }
 func (n *baseOverrideNode) GetWait() time.Duration {
 	n.c.x.enterGetter()
-	return time.Duration(n.c.spec.WaitMs) * time.Millisecond
+	return n.c.spec.Wait()
 }
 
 // enterGetter is called inside user-supplied settings getters (they are user callbacks too): the injection kind
@@ -784,8 +840,8 @@ func (x *Exec) build(id int) flyt.Node {
 	if spec.N != 1 || id%2 == 0 {
 		baseOpts = append(baseOpts, flyt.WithMaxRetries(spec.N))
 	}
-	if spec.WaitMs > 0 {
-		baseOpts = append(baseOpts, flyt.WithWait(time.Duration(spec.WaitMs)*time.Millisecond))
+	if spec.Wait() > 0 {
+		baseOpts = append(baseOpts, flyt.WithWait(spec.Wait()))
 	}
 	if spec.Conc > 0 && spec.Kind != KBatch {
 		baseOpts = append(baseOpts, flyt.WithBatchConcurrency(spec.Conc), flyt.WithBatchErrorHandling(spec.Conc%2 == 0))
@@ -818,7 +874,7 @@ func (x *Exec) build(id int) flyt.Node {
 	}
 	var n flyt.Node
 	mkBase := func() *flyt.BaseNode {
-		if !x.Sc.ShareBase || spec.WaitMs > 0 || spec.Conc > 0 {
+		if !x.Sc.ShareBase || spec.Wait() > 0 || spec.Conc > 0 {
 			return flyt.NewBaseNode(baseOpts...)
 		}
 		if x.sharedBase == nil {
@@ -861,7 +917,7 @@ func (x *Exec) build(id int) flyt.Node {
 		}
 		n = flyt.NewNode(opts...)
 	case KFnBldRes:
-		b := flyt.NewNode().WithPrepFunc(prepR).WithExecFunc(execR).WithPostFunc(postR).WithMaxRetries(spec.N).WithWait(time.Duration(spec.WaitMs) * time.Millisecond)
+		b := flyt.NewNode().WithPrepFunc(prepR).WithExecFunc(execR).WithPostFunc(postR).WithMaxRetries(spec.N).WithWait(spec.Wait())
 		if spec.HasFB {
 			b = b.WithExecFallbackFunc(c.fallback)
 		}
@@ -870,7 +926,7 @@ func (x *Exec) build(id int) flyt.Node {
 		}
 		n = b
 	case KFnBldAny:
-		b := flyt.NewNode().WithMaxRetries(spec.N).WithWait(time.Duration(spec.WaitMs) * time.Millisecond).WithPrepFuncAny(c.prep).WithExecFuncAny(c.exec).WithPostFuncAny(c.post)
+		b := flyt.NewNode().WithMaxRetries(spec.N).WithWait(spec.Wait()).WithPrepFuncAny(c.prep).WithExecFuncAny(c.exec).WithPostFuncAny(c.post)
 		if spec.HasFB {
 			b = b.WithExecFallbackFunc(c.fallback)
 		}
@@ -879,7 +935,7 @@ func (x *Exec) build(id int) flyt.Node {
 		}
 		n = b
 	case KFnMixed:
-		opts := []any{flyt.WithPrepFuncAny(c.prep), flyt.WithMaxRetries(spec.N), flyt.WithWait(time.Duration(spec.WaitMs) * time.Millisecond)}
+		opts := []any{flyt.WithPrepFuncAny(c.prep), flyt.WithMaxRetries(spec.N), flyt.WithWait(spec.Wait())}
 		if spec.HasFB {
 			opts = append(opts, flyt.WithExecFallbackFunc(c.fallback))
 		}
@@ -888,7 +944,7 @@ func (x *Exec) build(id int) flyt.Node {
 		stray := func(what string) {
 			c.x.record(Event{Node: id, Visit: c.visit - 1, Phase: "anomaly", Note: "the embedded builder's own " + what + " function ran although the node overrides that phase"})
 		}
-		b := flyt.NewNode().WithMaxRetries(spec.N).WithWait(time.Duration(spec.WaitMs) * time.Millisecond).
+		b := flyt.NewNode().WithMaxRetries(spec.N).WithWait(spec.Wait()).
 			WithPrepFuncAny(func(ctx context.Context, s *flyt.SharedStore) (any, error) { stray("prep"); return "inner-prep", nil }).
 			WithExecFuncAny(func(ctx context.Context, p any) (any, error) { stray("exec"); return "inner-exec", nil }).
 			WithPostFuncAny(func(ctx context.Context, s *flyt.SharedStore, p, e any) (flyt.Action, error) {
@@ -899,6 +955,17 @@ func (x *Exec) build(id int) flyt.Node {
 			b = b.WithExecFallbackFunc(c.fallback)
 		}
 		n = &embedBldNode{NodeBuilder: b, c: c}
+	case KEmbedFlow:
+		strayNode := flyt.NewNode().WithExecFuncAny(func(ctx context.Context, p any) (any, error) {
+			c.x.record(Event{Node: id, Visit: c.visit - 1, Phase: "anomaly", Note: "the embedded flow's own node ran although the embedding node overrides Exec and never starts it"})
+			return nil, nil
+		})
+		inner := flyt.NewFlow(strayNode)
+		flyt.WithMaxRetries(spec.N)(inner.BaseNode)
+		if spec.Wait() > 0 {
+			flyt.WithWait(spec.Wait())(inner.BaseNode)
+		}
+		n = &embedFlowNode{Flow: inner, c: c}
 	case KBaseOverride:
 		// the embedded BaseNode carries settings that must NOT be used
 		other := flyt.NewBaseNode(flyt.WithMaxRetries(spec.N+2), flyt.WithWait(0))
@@ -925,8 +992,11 @@ func (x *Exec) build(id int) flyt.Node {
 			WithPostFunc(func(ctx context.Context, s *flyt.SharedStore, items, results []flyt.Result) (flyt.Action, error) {
 				return c.batchPost(ctx, s, items, results)
 			})
-		if id%2 == 0 {
+		if id%4 == 0 {
 			bn = bn.WithBatchErrorHandling(true)
+		}
+		if id%4 == 2 {
+			bn = bn.WithBatchErrorHandling(false) // stop on error: the failing first item then is the only one executed
 		}
 		if id%3 == 1 {
 			// the same node through the generic constructor options (plain prep signature) instead of the builder methods
